@@ -17,7 +17,7 @@
       function of the iterator's stack value alone (a clone yields the same remaining items).
     Proofs: Lookup2.v (machine = [entries_id]), TrieWf.v (order), IterExtra.v (glue). *)
 From Coq Require Import List NArith Sorted.
-From PT Require Import Lookup Lookup2 MutTrav IterExtra.
+From PT Require Import Lookup Lookup2 MutTrav IterExtra Arena Arena3 ArenaProps ArenaViews.
 From PT.Properties Require Import Common.
 Import ListNotations.
 Local Open Scope nat_scope.
@@ -208,6 +208,29 @@ Proof.
   split; [apply C03_sorted_lex; exact Hwf | apply C03_sorted_addr_len; exact Hwf].
 Qed.
 
+(* ---------------------------------------------------------------------------------------- *)
+(** * The same statement about the ARENA-level transcription of the code (Arena*.v): [Iter] over the
+      table of any arena reachable from the empty arena by a history over the whole mutator alphabet,
+      started at the root ([PrefixMap::iter]) or at any location reachable by view navigation
+      ([TrieView::iter], [TrieViewMut::iter_mut]; ArenaViews.v), returns [Ok] (no panic; the fuel
+      [S (length table)] suffices) of a list that is strictly ascending in the lexicographic order of
+      the keys and contains no key twice. *)
+Theorem C03_arena (am : Arena.amap pfx V) :
+  areach pfx V (peq w) (contains w fl) (is_bit_set w) plen (lcp w fl) pzero (okp w) am ->
+  exists es, Arena.a_entries pfx V am = Arena.Ok es /\ StronglySorted (TrieWf.key_lt pfx V (kbits w)) es /\
+             NoDup (map (ekey w V) es).
+Proof.
+  intros H. destruct (arena_C01_entries pfx V _ _ _ _ _ _ _ _ _ (laws w fl Hw) am H) as (es & E & S & N & _).
+  exists es. auto.
+Qed.
+
+Theorem C03_arena_views (am : Arena.amap pfx V) l :
+  areach pfx V (peq w) (contains w fl) (is_bit_set w) plen (lcp w fl) pzero (okp w) am ->
+  a_vreach pfx V (peq w) (contains w fl) (is_bit_set w) plen (lcp w fl) (okp w) (Arena.tbl am) l ->
+  exists es, a_v_iter pfx V (Arena.tbl am) l = Arena.Ok es /\ StronglySorted (TrieWf.key_lt pfx V (kbits w)) es /\
+             NoDup (map (ekey w V) es).
+Proof. exact (arena_C03_view_iter pfx V _ _ _ _ _ _ _ _ _ (laws w fl Hw) am l). Qed.
+
 End C03.
 
 (** non-vacuity: a reachable state with a value-less leftover (128/1 after [remove_keep_tree]),
@@ -250,3 +273,5 @@ Print Assumptions C03_yielded_before.
 Print Assumptions C03_cover_yielded_first.
 Print Assumptions C03_shape_independent.
 Print Assumptions C03_reachable.
+Print Assumptions C03_arena.
+Print Assumptions C03_arena_views.
